@@ -54,8 +54,9 @@ pub struct QState {
     /// (key, value) in order; includes the aliased keys chosen by the generator
     pub vars: Vec<(String, String)>,
     pub players: Vec<QPlayer>,
-    /// the reply ends with a NUL after the last newline (as the in-code comment describes)
-    pub trailing_nul: bool,
+    /// how the datagram ends: 0 = after the last line feed, 1 = with a NUL after it (as the in-code comment
+    /// describes), 2 = directly after the last line, which is not closed by a line feed
+    pub ending: u8,
 }
 
 impl QState {
@@ -88,8 +89,12 @@ impl QState {
             b.extend_from_slice(line.as_bytes());
             b.push(b'\n');
         }
-        if self.trailing_nul {
-            b.push(0);
+        match self.ending {
+            1 => b.push(0),
+            2 => {
+                b.pop();
+            }
+            _ => {}
         }
         b
     }
@@ -285,7 +290,7 @@ pub fn gen_quake(c: &mut Chooser, ver: Ver, player_counts: &[usize], names_with_
         ver,
         vars,
         players,
-        trailing_nul: pick(c, &[false, true]),
+        ending: pick(c, &[0u8, 1, 2]),
     }
 }
 
